@@ -292,3 +292,14 @@ func cleanStack(st string) string {
 	}
 	return strings.Join(out, "\n")
 }
+
+// Die reports a failure from which the process cannot continue (for example a
+// goroutine that is stuck for good inside the code under test): the marker lines
+// are written to stdout, statistics are flushed and the process exits. The case
+// is reported unshrunk.
+func Die(prop string, c interface{}, f *Failure) {
+	_, b := HashJSON(c)
+	fmt.Printf("VERIF-FAIL property=%s :: %s\nVERIF-CASE %s\nVERIF-END\n", prop, strings.ReplaceAll(f.Msg, "\n", "\n    "), b)
+	Flush()
+	os.Exit(3)
+}
